@@ -27,13 +27,18 @@ def run(tier, seed):
         base = G.case(rng, 2 if G.capacity() >= 3 else 1, tmax=4, bmax=4, pmax=2)
         if base:
             plasmids = [base["vector"]] + base["modules"]
-            which = rng.randrange(len(plasmids))
-            n = len(plasmids[which])
-            for k in (range(n) if not q else rng.sample(range(n), min(n, 6))):
-                ps = list(plasmids)
-                ps[which] = gen.rotate(ps[which], k)
-                mods = [{"id": "m%d" % i, "seq": s} for i, s in enumerate(ps[1:], 1)]
-                recipes.append({"fn": "assemble", "enz": espec, "vector": {"id": "vec", "seq": ps[0]}, "modules": mods[::-1], "id": "p", "name": "p"})
+            for which in range(len(plasmids)):
+                n = len(plasmids[which])
+                if q:     # origin at (and one before / after) every structural boundary of the plasmid
+                    ks = gen.boundary_rotations(n, base["marks"][which], rng, extra=1, width=1)
+                    ks = rng.sample(ks, min(len(ks), 9))
+                else:
+                    ks = range(n)
+                for k in ks:
+                    ps = list(plasmids)
+                    ps[which] = gen.rotate(ps[which], k)
+                    mods = [{"id": "m%d" % i, "seq": s} for i, s in enumerate(ps[1:], 1)]
+                    recipes.append({"fn": "assemble", "enz": espec, "vector": {"id": "vec", "seq": ps[0]}, "modules": mods[::-1], "id": "p", "name": "p"})
     if not q:       # every enzyme of the family, not only one per geometry
         from .. import classes
         for e in enz.family():
